@@ -327,6 +327,12 @@ class Evaluator:
         def f(x, y):
             if op == "+" and isinstance(x, Vec) and isinstance(y, Vec) and x.kind == "list" and y.kind == "list":
                 return Vec(list(x.items) + list(y.items), "list")          # list concatenation
+            if op == "*" and ((isinstance(x, Vec) and x.kind == "list" and isinstance(y, Rat)) or (isinstance(y, Vec) and y.kind == "list" and isinstance(x, Rat))):
+                lst, cnt = (x, y) if isinstance(x, Vec) else (y, x)
+                c_ = cnt.is_const()
+                if c_ is not None and c_.denominator == 1 and 0 <= c_ <= 8:
+                    return Vec(list(lst.items) * int(c_), "list")
+                return anf.opaque("repeat", self.to_rat(lst), cnt, array=True)     # [a, b] * k: list repetition
             if isinstance(x, Vec) or isinstance(y, Vec):
                 xs = x.items if isinstance(x, Vec) else None
                 ys = y.items if isinstance(y, Vec) else None
